@@ -82,7 +82,7 @@ def execute(case, script=None):
     pv = POMDPView(case['spec'])
     ctx = RunCtx(PROP, None)
     ctx.declare_probes('exec_histories', 'multi_node_stochastic', 'evaluator_checked', 'absorbing_with_reward', 'bpi_runs', 'bpi_tables',
-                       'bpi_node_added', 'bpi_candidate_lowered_value', 'nested_run', 'rerun_after_abort', 'aborts_delivered', 'first_sweep_interrupted', 'ga_runs', 'low_probability_action_taken', 'execution_longer_than_700_steps')
+                       'bpi_node_added', 'bpi_candidate_lowered_value', 'nested_run', 'rerun_after_abort', 'aborts_delivered', 'first_sweep_interrupted', 'start_node_distribution_given', 'ga_runs', 'low_probability_action_taken', 'execution_longer_than_700_steps')
     sched = make_scheduler(case, script, ctx)
     try:
         cfg = case['cfg']
@@ -193,8 +193,16 @@ def _exec(pv, cfg, ctx, sched):
         hookN = ctx.nest_after(1 + cfg['nest'] % 9, nested)
     for k in range(cfg['rollouts']):
         tag = f"execution {k}"
+        # call form: every third execution is started in a node distribution of the caller's choosing ("running that
+        # controller from each (node, state) pair") - with or without a start state given
+        ini0 = ini
+        kw = {}
+        if (k + nN + pv.nS) % 3 == 0 and nN > 1:
+            ini0 = np.roll(ini, 1) if k % 2 else np.eye(nN)[(k + pv.nA) % nN]
+            kw['initial_agentstate'] = np.array(ini0, dtype=float)
+            ctx.probe('start_node_distribution_given')
         try:
-            tr = pol.run_on(pomdp, initial_state=None if start is None else sk[start], max_steps=cfg['cap'], rng=rng)
+            tr = pol.run_on(pomdp, initial_state=None if start is None else sk[start], max_steps=cfg['cap'], rng=rng, **kw)
         except (Violation, Inconclusive):
             raise
         except Exception as e:
@@ -211,9 +219,10 @@ def _exec(pv, cfg, ctx, sched):
             ctx.check(first == start, 'execution-start', lambda: f"{tag}: started in state {first}, was asked to start in {start}")
         else:
             ctx.check(pv.init.get(first, 0) > 0, 'execution-start', lambda: f"{tag}: sampled start {first} has probability 0")
-        ctx.check(np.allclose(np.asarray(tr[0].agentstate, dtype=float), ini, atol=1e-12), 'execution-start',
-                  lambda: f"{tag}: first agent state {tr[0].agentstate} is not the controller's initial node distribution {ini.tolist()}")
-        beta = ini.copy()
+        ctx.check(np.allclose(np.asarray(tr[0].agentstate, dtype=float), ini0, atol=1e-12), 'execution-start',
+                  lambda: f"{tag}: first agent state {tr[0].agentstate} is not the node distribution the execution was started in {np.asarray(ini0).tolist()}"
+                  f" ({'given by the caller' if kw else 'the controller`s own'})")
+        beta = np.array(ini0, dtype=float)
         for t, st in enumerate(tr[:-1]):
             ctx.steps += 1
             try:
